@@ -1,0 +1,90 @@
+//go:build verif
+
+// Contracts for the govc verifier (/verif). Comment-only.
+
+package migration
+
+// Ghost call log of one upgrade: the stored version read by CurrentVersion,
+// the number of the last migration applied, how many were applied, and the
+// SetVersion calls.
+//@ ghost curVer Int
+//@ ghost lastApplied Int
+//@ ghost migCount Int
+//@ ghost migFailed Bool
+//@ ghost setVerCalls Int
+//@ ghost setVerArg Int
+
+//@ axiom migration_errs: ErrReversion != nil
+
+// ---- assumed contracts of the Manager interface and of a migration closure ----
+//@ iface Manager.Name(m) (s)
+//@   pure
+//@ iface Manager.Namespace(m) (ns)
+//@   pure
+//@ iface Manager.Versions(m) (vs)
+//@   trusted
+//@ iface Manager.CurrentVersion(m, ns) (v, err)
+//@   trusted
+//@   modifies curVer
+//@   ensures cur: err == nil ==> curVer == v
+
+// The stored version only moves forward, is recorded once and only after every
+// applied migration succeeded.
+//@ iface Manager.SetVersion(m, ns, v) (err)
+//@   trusted
+//@   requires forward: v > curVer
+//@   requires once: setVerCalls == 0
+//@   requires no_failure: !migFailed
+//@   modifies setVerCalls, setVerArg
+//@   ensures logged: setVerCalls == old(setVerCalls) + 1 && setVerArg == v
+
+// A migration may only be applied when its number is above the stored version
+// and not below any migration applied before it (pending, ascending), and
+// never after a failed one or after the version was recorded.
+//@ func field Version.Migration(ns) (err)
+//@   trusted
+//@   requires pending: self.Number > curVer
+//@   requires ascending: self.Number >= lastApplied
+//@   requires no_failure: !migFailed
+//@   requires before_setversion: setVerCalls == 0
+//@   modifies lastApplied, migCount, migFailed
+//@   ensures logged: lastApplied == self.Number && migCount == old(migCount) + 1 && migFailed == (err != nil)
+
+// ---- comparison closures ----
+//@ func GetLatestVersion$1(i, j) (r)
+//@   property C19
+//@   pure
+//@   requires idx: 0 <= i && i < len(versions) && 0 <= j && j < len(versions)
+//@   ensures def: r == (versions[i].Number < versions[j].Number)
+//@ func VersionsToApply$1(i, j) (r)
+//@   property C19
+//@   pure
+//@   requires idx: 0 <= i && i < len(upgradeVersions) && 0 <= j && j < len(upgradeVersions)
+//@   ensures def: r == (upgradeVersions[i].Number < upgradeVersions[j].Number)
+
+//@ func GetLatestVersion(versions) (r)
+//@   property C19
+//@   ensures empty: len(versions) == 0 ==> r == 0
+//@   ensures max: forall i Int :: {versions[i]} 0 <= i && i < len(versions) ==> versions[i].Number <= r
+//@   ensures attained: len(versions) > 0 ==> r == versions[len(versions)-1].Number
+
+//@ func VersionsToApply(currentVersion, versions) (r)
+//@   property C19
+//@   invariant 1 idx: 0 <= rangeindex + 1 && rangeindex + 1 <= len(versions) && len(upgradeVersions) <= rangeindex + 1
+//@   invariant 1 sep: upgradeVersions.base == 0 || fresh(upgradeVersions)
+//@   invariant 1 newer: forall k Int :: {upgradeVersions[k]} 0 <= k && k < len(upgradeVersions) ==> upgradeVersions[k].Number > currentVersion
+//@   invariant 1 input_untouched: forall i Int :: {versions[i]} 0 <= i && i < len(versions) ==> versions[i] == old(versions[i])
+//@   ensures newer: forall k Int :: {r[k]} 0 <= k && k < len(r) ==> r[k].Number > currentVersion
+//@   ensures ascending: forall a Int, b Int :: {r[a], r[b]} 0 <= a && a < b && b < len(r) ==> r[a].Number <= r[b].Number
+//@   ensures input_untouched: forall i Int :: {versions[i]} 0 <= i && i < len(versions) ==> versions[i] == old(versions[i])
+
+//@ func upgrade(mgr) (err)
+//@   property C19
+//@   requires init: lastApplied == 0 && setVerCalls == 0 && !migFailed
+//@   invariant 1 idx: 0 <= rangeindex + 1 && rangeindex + 1 <= len(versions)
+//@   invariant 1 cur: curVer == currentVersion && setVerCalls == 0 && !migFailed && currentVersion < latestVersion
+//@   invariant 1 newer: forall k Int :: {versions[k]} 0 <= k && k < len(versions) ==> versions[k].Number > curVer
+//@   invariant 1 sorted: forall a Int, b Int :: {versions[a], versions[b]} 0 <= a && a < b && b < len(versions) ==> versions[a].Number <= versions[b].Number
+//@   invariant 1 last: forall k Int :: {versions[k]} rangeindex + 1 <= k && k < len(versions) ==> versions[k].Number >= lastApplied
+//@   ensures success_records_once: err == nil ==> (setVerCalls == 1 && setVerArg > curVer) || (setVerCalls == 0 && migCount == old(migCount))
+//@   ensures failure_keeps_version: migFailed ==> setVerCalls == 0 && err != nil
